@@ -237,7 +237,7 @@ def operand(kind: str, level: str, right: bool, rng=None, variant: int = 0) -> D
         return leaf(level, "f" + sfx)
     if kind == "double":
         if variant % 3 == 2:
-            return flt_lit([2.0, 4.0, 0.5][variant % 3] if right else [2.5, 1.5, 3.0][variant % 3])
+            return flt_lit(2.0 if right else 2.5)  # a right operand is also used as divisor and exponent: keep it a power of two
         return leaf(level, "d" + sfx)
     if kind == "bool":
         if variant % 3 == 2:
@@ -328,4 +328,4 @@ def env_from_row(row: Tuple, level: str, counts: Tuple[int, int] = (0, 0)) -> Di
     return env
 
 
-COUNTS = [(7, 2), (0, 3), (3, 1), (4, 4), (1, 0), (2, 5)]
+COUNTS = [(7, 2), (0, 4), (3, 1), (4, 4), (1, 0), (2, 8)]  # the second bank is used as divisor: powers of two (and a zero)
